@@ -305,9 +305,15 @@ def run(ctx):
 
     # ---- C16-nul
     n = 0
-    for (k2, u2, f2, call) in nul.strchr_sites(ctx, lambda k2, u2, f2: u2.name == 'time_zone_posix.cc'):
+    sites_ = nul.strchr_sites(ctx, lambda k2, u2, f2: u2.name == 'time_zone_posix.cc')
+    for (k2, u2, f2, call) in sites_:
         if nul.check_site(ctx, 'C16-nul', k2, u2, f2, call):
             n += 1
+    if not sites_:
+        # digits classified without a set lookup (range tests, a switch): there is no search that could match the set's
+        # own terminator; that such tests exclude the NUL of the input is C16-cursor's obligation
+        ctx.ok('C16-nul', 'no strchr/memchr lookup in time_zone_posix.cc', ctx.fn('cctz::ParsePosixSpec')[1],
+               'nothing to exclude: no character-set lookup is made')
     ctx.minimum('C16-nul', 1)
 
     # ---- C16-lex: the scanner sees every byte itself
